@@ -602,3 +602,4 @@ PROPS["C18"]["level_text"] += WORKER_TEXT
 PROPS["C02"]["functions"] += [WB + "::write_buffer_worker"]
 PROPS["C18"]["functions"] += [WB + "::write_buffer_worker"]
 PROPS["C02"]["outside"] = "crash images as executions, fsync placement inside DiskIO (C03/C09 io protocol obligations)"
+PROPS["C01"]["level_text"] += " Shared with C14: the hashed and the ordered index move together at all 11 hash-table mutation sites (range queries and point reads see the same keys)."
